@@ -548,7 +548,7 @@ import shutil
 import tempfile
 
 _VALS = {"int": [0, 1, -1, 2**40], "num": [0, 7, 2.5], "bool": [True, False], "str": ["", "a", "/x/", "é"], "list": [[], ["a"], ["a", "b:1"]]}
-_FILEDIR = tempfile.mkdtemp(prefix="vf_c19_")
+_FILEDIR = tempfile.mkdtemp(prefix=f"vf_c19_{os.getpid()}_")  # pid in the name: ./check sweeps dirs of dead jobs
 atexit.register(shutil.rmtree, _FILEDIR, True)
 _FILES: List[Tuple[str, Any, str, str]] = []
 
